@@ -654,10 +654,16 @@ class HistogramBase(abc.ABC):
         """Whether two histograms share the same binning."""
         if self.shape != other.shape:
             return False
-        elif self.ndim == 1:
-            return np.allclose(self.bins, other.bins)
-        for i in range(self.ndim):
-            if not np.allclose(self.bins[i], other.bins[i]):
+        for binning1, binning2 in zip(self._binnings, other._binnings):
+            bins1, bins2 = binning1.bins, binning2.bins
+            if bins1.shape[0] == 0:
+                continue
+            # The tolerance is relative to the narrowest bin, not to the magnitude
+            # of the edges (narrow bins far from zero differ by much less than that).
+            min_width = min(
+                np.min(bins1[:, 1] - bins1[:, 0]), np.min(bins2[:, 1] - bins2[:, 0])
+            )
+            if not np.allclose(bins1, bins2, rtol=0, atol=1e-5 * min_width):
                 return False
         return True
 
